@@ -26,8 +26,13 @@ def run(ctx, rep):
     rt.rule_unsafe_inventory(rep, crate, 'logos-forbid', expect_empty=True)
     rt.rule_read_forbid(rep, crate, 'logos-forbid')
     rt.rule_accessor_operands(rep, crate, 'logos-forbid', True)
+    # str items begin and end on char boundaries only if no pattern of a str definition (skip patterns included) can match
+    # a partial UTF-8 sequence: the acceptance gate (the unchecked str slicing of slice()/remainder() relies on it)
+    from props import cg
+    cg.rule_utf8_gate(rep, ctx.mir('ws-default')['logos_codegen'])
     from props import gen
     gen.rules_c05(ctx, rep)
+    gen.rule_must_reject(ctx, rep, gen.configs(ctx), ['non_utf8_in_str_mode'], floor=8)
     rep.analysed['configs'] = cfgs + ['logos-forbid']
     if ctx.tier == 'thorough':
         rt.rule_witnesses(rep, ctx)
